@@ -30,6 +30,9 @@ REP = 'NoteSeqVerif.Props.C20_repeat'      # float side condition of repeat disc
 MODULES = (['NoteSeqVerif.Proofs.C20_rne', 'NoteSeqVerif.Proofs.C20', 'NoteSeqVerif.Proofs.C20_pcm'] + CHUNKS +
            ['NoteSeqVerif.Proofs.C20_pcm_all', PCM, 'NoteSeqVerif.Proofs.C20_repeat', REP, 'NoteSeqVerif.Props.C20'])
 EXE = 'drv_c20'
+# translator tie T2 (gen/translit2.py): the sample counts of crop_samples / repeat_samples_to_duration, by symbolic execution
+BRIDGE = 'NoteSeqVerif.Props.C20_bridge'
+BRIDGE_THEOREMS = ['NSV.C20.t2_crop_begin', 'NSV.C20.t2_crop_length', 'NSV.C20.t2_num_repeats', 'NSV.C20.t2_crop_slice']
 THEOREMS = [
     (PCM, 'NSV.C20.pcm_roundtrip'), (PCM, 'NSV.C20.pcm_roundtrip_formula'), (PCM, 'NSV.C20.pcm_roundtrip_list'),
     (PCM, 'NSV.C20.int16ToFloat_injective'), (PCM, 'NSV.C20.int16_to_float_rejects'),
@@ -99,6 +102,15 @@ def _scale_constants(A):
 
 def generate(chk):
     import note_seq.audio_io as A
+    from harness.t2 import generate_t2
+    generate_t2(chk, 'C20', [
+        dict(fn=A.crop_samples, module=A, name='crop_samples',
+             params={'sample_rate': 'int', 'crop_beginning_seconds': 'float', 'total_length_seconds': 'float'},
+             export=['samples_to_crop', 'total_samples']),
+        dict(fn=A.repeat_samples_to_duration, module=A, name='repeat_samples_to_duration',
+             params={'sample_rate': 'int', 'duration': 'float'}, paths={'len(samples)': ('n', 'int')},
+             export=['num_repeats']),
+    ])
     try:
         div, mul = _scale_constants(A)
     except _Unrecognised as e:
@@ -893,6 +905,7 @@ def _run(chk, A):
         'assignment and transpose as modelled (validated by the correspondence)',
         'scipy.io.wavfile write/read = identity on (rate, mono int16 array): third party, monitored on every WAV case, not proved',
         'harness/c20.py AST reader for the two scale constants'])
+    chk.prove_bridge([BRIDGE], [(BRIDGE, t) for t in BRIDGE_THEOREMS])
     chk.rule = ('pcm: all 65 536 int16 values through both helpers (both tiers); f2i: float16/32/64 arrays at k/32767 +-ulps, '
                 'k/32768, half-way points, limits, out-of-range; wav: int16 mono signals (uniform / extremes / ramp / sine) '
                 'and arbitrary float32 signals at the five rates; crop / repeat: arrays of 0..10^5 samples, rates '
